@@ -256,12 +256,19 @@ Proof. unfold relay_txid. safe_tac. apply extract_relay_message_total. Qed.
 Lemma remove_range_total data s e : s <= e -> e <= lenN data -> safe (remove_range data s e).
 Proof. intros. unfold remove_range. safe_tac. Qed.
 
-(* the scan only ever reports ranges inside the packet *)
-Definition ex_ok (pkt : bytes) (ex : option (N * N)) : Prop :=
-  match ex with Some (s, e) => s <= e /\ e <= lenN pkt | None => True end.
-Lemma o82_scan_total : forall fuel i pkt ex,
-  (N.to_nat (lenN pkt - i) < fuel)%nat -> safe (o82_scan fuel i pkt ex).
-Proof. fuel_ind fuel. intros i pkt ex Hf. cbn [o82_scan]. safe_tac; apply IH; lia. Qed.
+(* ranges kept last-found-first: descending, non-overlapping, below a bound *)
+Fixpoint ranges_ok (bound : N) (rs : list (N * N)) : Prop :=
+  match rs with
+  | [] => True
+  | (s, e) :: r => s <= e /\ e <= bound /\ ranges_ok s r
+  end.
+Lemma ranges_ok_mono rs : forall b b', b <= b' -> ranges_ok b rs -> ranges_ok b' rs.
+Proof. destruct rs as [|[s e] r]; cbn; intros; [exact I|]. intuition lia. Qed.
+Lemma ranges_total_le rs : forall b, ranges_ok b rs -> ranges_total rs <= b.
+Proof.
+  induction rs as [|[s e] r IH]; cbn [ranges_total fold_right ranges_ok fst snd]; intros b H; [lia|].
+  destruct H as (H1 & H2 & H3). apply IH in H3. fold (ranges_total r). lia.
+Qed.
 Lemma lenN_app a b : lenN (a ++ b) = lenN a + lenN b.
 Proof. unfold lenN. rewrite app_length. lia. Qed.
 Lemma remove_range_len data s e r :
@@ -269,77 +276,85 @@ Lemma remove_range_len data s e r :
 Proof.
   unfold remove_range. intros H Hse. inv_ok. note_len. rewrite lenN_app. lia.
 Qed.
-Definition ex_le (i : N) (ex : option (N * N)) : Prop :=
-  match ex with Some (s, e) => s <= e /\ e <= i | None => True end.
-Definition scan_post (pkt : bytes) (r : option N * option (N * N)) : Prop :=
+Lemma remove_ranges_total rs : forall data, ranges_ok (lenN data) rs -> safe (remove_ranges data rs).
+Proof.
+  induction rs as [|[s e] r IH]; intros data H; [reflexivity|].
+  cbn [remove_ranges]. destruct H as (H1 & H2 & H3).
+  apply safe_bind; [apply remove_range_total; lia|]. intros d Hd.
+  apply remove_range_len in Hd; [|lia]. apply IH. eapply ranges_ok_mono; [|exact H3]. lia.
+Qed.
+Lemma remove_ranges_len rs : forall data r, ranges_ok (lenN data) rs ->
+  remove_ranges data rs = Ok r -> lenN r = lenN data - ranges_total rs.
+Proof.
+  induction rs as [|[s e] q IH]; intros data r H Hr.
+  - apply Ok_inj in Hr. subst. cbn. lia.
+  - cbn [remove_ranges] in Hr. destruct H as (H1 & H2 & H3).
+    destruct (remove_range data s e) as [d| | |] eqn:Ed; cbn [rbind] in Hr; try discriminate Hr.
+    apply remove_range_len in Ed; [|lia].
+    pose proof (ranges_total_le _ _ H3) as Ht.
+    apply IH in Hr; [|eapply ranges_ok_mono; [|exact H3]; lia].
+    cbn [ranges_total fold_right fst snd]. fold (ranges_total q). lia.
+Qed.
+
+Lemma o82_scan_total : forall fuel i pkt ex,
+  (N.to_nat (lenN pkt - i) < fuel)%nat -> safe (o82_scan fuel i pkt ex).
+Proof. fuel_ind fuel. intros i pkt ex Hf. cbn [o82_scan]. safe_tac; apply IH; lia. Qed.
+Definition scan_post (pkt : bytes) (r : option N * list (N * N)) : Prop :=
   match fst r with
-  | Some ei => ei < lenN pkt /\ ex_le ei (snd r)
-  | None => ex_le (lenN pkt) (snd r)
+  | Some ei => ei < lenN pkt /\ ranges_ok ei (snd r)
+  | None => ranges_ok (lenN pkt) (snd r)
   end.
 Lemma o82_scan_inv : forall fuel i pkt ex r,
-  o82_scan fuel i pkt ex = Ok r -> i <= lenN pkt -> ex_le i ex -> scan_post pkt r.
+  o82_scan fuel i pkt ex = Ok r -> i <= lenN pkt -> ranges_ok i ex -> scan_post pkt r.
 Proof.
   induction fuel as [|fuel IH]; intros i pkt ex r H Hi Hex; [discriminate|].
   cbn [o82_scan] in H. unfold scan_post.
   destruct (i <? lenN pkt) eqn:E0.
-  2:{ apply Ok_inj in H; subst; cbn [fst snd]. destruct ex as [[s e]|]; cbn in *; lia. }
+  2:{ apply Ok_inj in H; subst; cbn [fst snd]. eapply ranges_ok_mono; [|exact Hex]. lia. }
   destruct (idx i pkt) as [c| | |] eqn:Ec; cbn [rbind] in H; try discriminate H.
   destruct (c =? 0) eqn:E1.
-  { eapply (IH _ _ _ _ H); [lia|]. destruct ex as [[s e]|]; cbn in *; lia. }
+  { eapply (IH _ _ _ _ H); [lia|]. eapply ranges_ok_mono; [|exact Hex]. lia. }
   destruct (c =? 255) eqn:E2.
   { apply Ok_inj in H; subst; cbn [fst snd]. split; [lia|exact Hex]. }
   destruct (lenN pkt <=? i + 1) eqn:E3.
-  { apply Ok_inj in H; subst; cbn [fst snd]. destruct ex as [[s e]|]; cbn in *; lia. }
+  { apply Ok_inj in H; subst; cbn [fst snd]. eapply ranges_ok_mono; [|exact Hex]. lia. }
   destruct (idx (i + 1) pkt) as [ol| | |] eqn:Eo; cbn [rbind] in H; try discriminate H.
   destruct (lenN pkt <? i + 2 + ol) eqn:E4.
-  { apply Ok_inj in H; subst; cbn [fst snd]. destruct ex as [[s e]|]; cbn in *; lia. }
+  { apply Ok_inj in H; subst; cbn [fst snd]. eapply ranges_ok_mono; [|exact Hex]. lia. }
   eapply (IH _ _ _ _ H); [lia|].
-  destruct (c =? 82); [cbn; lia|]. destruct ex as [[s e]|]; cbn in *; lia.
+  destruct (c =? 82).
+  - cbn [ranges_ok]. repeat split; try lia. exact Hex.
+  - eapply ranges_ok_mono; [|exact Hex]. lia.
+Qed.
+(* what the scan found can be removed and leaves room for the End offset: no int underflow in
+   `endIdx -= r[1]-r[0]` *)
+Lemma o82_scan_ranges pkt r :
+  o82_scan (S (length pkt)) 240 pkt [] = Ok r -> 240 <= lenN pkt ->
+  ranges_ok (lenN pkt) (snd r) /\
+  ranges_total (snd r) <= match fst r with Some e => e | None => lenN pkt end /\
+  match fst r with Some e => e | None => lenN pkt end <= lenN pkt.
+Proof.
+  intros H Hl. apply o82_scan_inv in H; [|lia|exact I]. unfold scan_post in H.
+  destruct (fst r) as [ei|].
+  - destruct H as [H1 H2]. repeat split; [eapply ranges_ok_mono; [|exact H2]; lia|apply ranges_total_le; exact H2|lia].
+  - repeat split; [exact H|apply ranges_total_le; exact H|lia].
 Qed.
 
 Lemma insert_option82_total pkt opt82 policy : safe (insert_option82 pkt opt82 policy).
 Proof.
   unfold insert_option82. destruct (lenN pkt <? 240) eqn:E; [reflexivity|].
-  apply safe_bind; [apply o82_scan_total; unfold lenN; lia|]. intros [eo ex] Hs.
-  apply o82_scan_inv in Hs; [|lia|exact I]. unfold scan_post in Hs. cbn [fst snd] in *.
-  assert (Hrr : forall s e, ex = Some (s, e) -> s <= e /\ e <= lenN pkt /\
-                 e <= match eo with Some e0 => e0 | None => lenN pkt end /\
-                 match eo with Some e0 => e0 | None => lenN pkt end <= lenN pkt).
-  { intros s e ->. destruct eo; cbn in Hs; lia. }
-  assert (Hee : match eo with Some e0 => e0 | None => lenN pkt end <= lenN pkt).
-  { destruct eo; cbn in Hs; lia. }
-  set (endidx := match eo with Some e0 => e0 | None => lenN pkt end) in *.
-  assert (Hrep : safe (pe <- match ex with
-                   | Some (s, e) => p <- remove_range pkt s e;; Ok (p, endidx - (e - s))
-                   | None => Ok (pkt, endidx) end;;
-                 (let pkt' := fst pe in let endidx' := snd pe in
-                  a <- sl 0 endidx' pkt';; b <- slf endidx' pkt';; Ok (a ++ opt82 ++ b)))).
-  { destruct ex as [[s e]|].
-    - destruct (Hrr s e eq_refl) as (H1 & H2 & H3 & H4).
-      apply safe_bind.
-      + apply safe_bind; [apply remove_range_total; lia|reflexivity].
-      + intros [p n] Hp. destruct (remove_range pkt s e) as [q| | |] eqn:Eq; cbn [rbind] in Hp; try discriminate Hp.
-        apply Ok_inj in Hp. inversion Hp; subst. apply remove_range_len in Eq; [|lia]. cbv [fst snd]. safe_tac.
-    - cbn [rbind fst snd]. safe_tac. }
-  destruct ex as [[s e]|]; destruct policy as [|[p|p|]]; try exact Hrep;
-    try (destruct p; exact Hrep); try reflexivity.
-  - destruct p; try exact Hrep. destruct (Hrr s e eq_refl) as (H1 & H2 & _). apply remove_range_total; lia.
-  - destruct p; try exact Hrep. reflexivity.
-Qed.
-
-Lemma strip_scan_total : forall fuel i pkt, (N.to_nat (lenN pkt - i) < fuel)%nat -> safe (strip_scan fuel i pkt).
-Proof. fuel_ind fuel. intros i pkt Hf. cbn [strip_scan]. safe_tac; apply IH; lia. Qed.
-Lemma strip_scan_inv : forall fuel i pkt s e,
-  strip_scan fuel i pkt = Ok (Some (s, e)) -> s <= e /\ e <= lenN pkt.
-Proof.
-  induction fuel as [|fuel IH]; intros i pkt s e H; [discriminate|].
-  cbn [strip_scan] in H. inv_ok; try discriminate; try (eapply IH; eassumption).
-  inversion H; subst. lia.
+  apply safe_bind; [apply o82_scan_total; unfold lenN; lia|]. intros r Hs.
+  apply o82_scan_ranges in Hs; [|lia]. destruct Hs as (H1 & H2 & H3). cbv zeta.
+  destruct ((policy =? 1) && negb match snd r with [] => true | _ :: _ => false end); [reflexivity|].
+  destruct (policy =? 2); [apply remove_ranges_total; exact H1|].
+  apply safe_bind; [apply remove_ranges_total; exact H1|]. intros p Hp.
+  apply remove_ranges_len in Hp; [|exact H1]. safe_tac.
 Qed.
 Lemma strip_option82_total pkt : safe (strip_option82 pkt).
 Proof.
-  unfold strip_option82. safe_tac; try (apply strip_scan_total; unfold lenN; lia).
-  subst. apply strip_scan_inv in Hb. apply remove_range_total; lia.
+  unfold strip_option82. destruct (lenN pkt <? 240) eqn:E; [reflexivity|].
+  apply safe_bind; [apply o82_scan_total; unfold lenN; lia|]. intros r Hs.
+  apply o82_scan_ranges in Hs; [|lia]. apply remove_ranges_total. apply Hs.
 Qed.
 
 Lemma find_opt_loop_total : forall fuel i pkt code,
@@ -363,9 +378,49 @@ Proof.
     { destruct (240 <=? lenN pkt); [eapply ins_scan_inv; eassumption|apply Ok_inj in He; lia]. }
     safe_tac.
 Qed.
+Lemma spans_loop_total : forall fuel i pkt code acc,
+  (N.to_nat (lenN pkt - i) < fuel)%nat -> safe (spans_loop fuel i pkt code acc).
+Proof. fuel_ind fuel. intros i pkt code acc Hf. cbn [spans_loop]. safe_tac; apply IH; lia. Qed.
+Lemma spans_loop_inv : forall fuel i pkt code acc r,
+  spans_loop fuel i pkt code acc = Ok r -> i <= lenN pkt -> ranges_ok i acc -> ranges_ok (lenN pkt) r.
+Proof.
+  induction fuel as [|fuel IH]; intros i pkt code acc r H Hi Hacc; [discriminate|].
+  cbn [spans_loop] in H.
+  destruct (i <? lenN pkt) eqn:E0.
+  2:{ apply Ok_inj in H; subst. eapply ranges_ok_mono; [|exact Hacc]. lia. }
+  destruct (idx i pkt) as [c| | |] eqn:Ec; cbn [rbind] in H; try discriminate H.
+  destruct (c =? 0) eqn:E1.
+  { eapply (IH _ _ _ _ _ H); [lia|]. eapply ranges_ok_mono; [|exact Hacc]. lia. }
+  destruct ((c =? 255) || (lenN pkt <=? i + 1)) eqn:E2.
+  { apply Ok_inj in H; subst. eapply ranges_ok_mono; [|exact Hacc]. lia. }
+  destruct (idx (i + 1) pkt) as [ol| | |] eqn:Eo; cbn [rbind] in H; try discriminate H.
+  cbv zeta in H.
+  destruct (lenN pkt <? i + 2 + ol) eqn:E4.
+  { apply Ok_inj in H; subst. eapply ranges_ok_mono; [|exact Hacc]. lia. }
+  eapply (IH _ _ _ _ _ H); [lia|].
+  destruct (c =? code).
+  - cbn [ranges_ok]. repeat split; try lia. exact Hacc.
+  - eapply ranges_ok_mono; [|exact Hacc]. lia.
+Qed.
+Lemma option_spans_total pkt code : safe (option_spans pkt code).
+Proof.
+  unfold option_spans.
+  destruct (Nat.leb_spec 240 (length pkt)).
+  - apply spans_loop_total. unfold lenN. lia.
+  - cbn [spans_loop]. destruct (240 <? lenN pkt) eqn:E; [unfold lenN in E; lia|reflexivity].
+Qed.
 Lemma set_option4_total pkt code val : safe (set_option4 pkt code val).
 Proof.
-  unfold set_option4. safe_tac; try apply find_option_total; try apply insert_option_total.
+  unfold set_option4. apply safe_bind; [apply option_spans_total|]. intros spans Hs.
+  assert (Hok : ranges_ok (lenN pkt) spans).
+  { unfold option_spans in Hs. destruct (240 <=? lenN pkt) eqn:E240.
+    - eapply spans_loop_inv; [exact Hs|lia|exact I].
+    - cbn [spans_loop] in Hs. destruct (240 <? lenN pkt) eqn:E; [lia|]. apply Ok_inj in Hs. subst. exact I. }
+  assert (Hrem : safe (p <- remove_ranges pkt spans;; insert_option p code val)).
+  { apply safe_bind; [apply remove_ranges_total; exact Hok|]. intros; apply insert_option_total. }
+  destruct spans as [|[s e] [|x r]]; try exact Hrem.
+  destruct (e - s =? 6) eqn:E6; [|exact Hrem].
+  cbn [ranges_ok] in Hok. safe_tac.
 Qed.
 Lemma get_option4_total pkt code : safe (get_option4 pkt code).
 Proof. unfold get_option4. safe_tac; apply find_option_total. Qed.
